@@ -404,20 +404,20 @@ def _restrict_refs(M):
             M['COFT'] = [p for p in M['COFT'] if p in cons]
     else:
         M.pop('SHORT', None)
-    if M.get('INCON'):
-        M['INCON'] = dict((k, v) for k, v in M['INCON'].items() if k in blocks)
     return M
 
 
 def _prune(M, order):
     """Drop sections that became empty from the order."""
-    order = [s for s in order if s in ('ELEME', 'CONNE', 'PARAM') or _has(M, s)]
-    M = dict((k, v) for k, v in M.items() if k == 'title' or k in ('ELEME', 'CONNE') or _has(M, k))
+    # (an object without blocks / connections has no ELEME / CONNE section: an empty ELEME block in a TOUGH2
+    # input makes the simulator write an empty MESH file over the real one)
+    order = [s for s in order if s == 'PARAM' or _has(M, s)]
+    M = dict((k, v) for k, v in M.items() if k == 'title' or _has(M, k))
     return M, order
 
 
 DEPENDS = {'ELEME': ['ROCKS'], 'CONNE': ['ROCKS', 'ELEME'], 'SHORT': ['ROCKS', 'ELEME', 'CONNE', 'GENER'],
-           'INCON': ['ROCKS', 'ELEME'], 'DIFFU': ['MULTI'], 'COFT': [], 'FOFT': [], 'GOFT': []}
+           'INCON': [], 'DIFFU': ['MULTI'], 'COFT': [], 'FOFT': [], 'GOFT': []}
 
 
 def legal_order(order):
@@ -977,6 +977,9 @@ def all_modes(flavour):
                 continue     # two carriers of different precision for the same numbers: the 9-digit companion
                              # file wins over the exact binary pair, so the pair cannot be reproduced
             out.append({'mesh': m, 'xp': list(x[1]) if x[1] else None, 'echo': x[2]})
+            if x[1] and len(x[1]) > 1:
+                # the same sections named in another order (the list is a set of names for the user)
+                out.append({'mesh': m, 'xp': list(x[1]), 'echo': x[2], 'rev': True})
     return out
 
 
@@ -1005,7 +1008,7 @@ def core_modes(flavour):
     out = []
     for mode in all_modes(flavour):
         full = ['ROCKS', 'RPCAP', 'GENER'] if mode['mesh'] == 'binary' else XP_ALL
-        if mode['xp'] is None or mode['xp'] == full:
+        if (mode['xp'] is None or mode['xp'] == full) and not mode.get('rev'):
             out.append(mode)
     return out
 
@@ -1650,7 +1653,8 @@ def _chain(M, order, mode, flavour, end_kw, late=()):
     kw = {}
     via = mode.get('via') or 'args'
     if mode['xp'] is not None:
-        xpv = True if (via != 'args' and list(mode['xp']) == XP_ALL) else list(mode['xp'])
+        xpv = True if (via != 'args' and list(mode['xp']) == XP_ALL and not mode.get('rev')) else \
+            (list(mode['xp'])[::-1] if mode.get('rev') else list(mode['xp']))
         if via == 'args':
             kw = {'extra_precision': xpv, 'echo_extra_precision': bool(mode['echo'])}
         else:
@@ -1683,6 +1687,11 @@ def _chain(M, order, mode, flavour, end_kw, late=()):
     info['bytes'] = len(f1['main'])
     announced = list(dat._sections)
     info['sections'] = announced
+    # the order in which the object lists its extra-precision sections is its own (the request is a set of names)
+    ann_xp = list(dat.extra_precision) if mode['xp'] else []
+    if sorted(ann_xp) != sorted(mode['xp'] or []):
+        viol.append(('C01|write(obj)|extra-precision-list|%s' % flavour[0],
+                     'object lists extra precision sections %s, requested %s' % (ann_xp, mode['xp'])))
     side = ('ELEME', 'CONNE') if mode['mesh'] != 'in' else ()
     xp = tuple(mode['xp'] or ())
     if late or via == 'toggle':
@@ -1700,7 +1709,10 @@ def _chain(M, order, mode, flavour, end_kw, late=()):
     exp_main = [s for s in order if s not in side and not (s in xp and not mode['echo'])]
     ann_main = [s for s in announced if s not in side and not (s in xp and not mode['echo'])]
     if ann_main != exp_main:
-        viol.append(('C01|write(obj)|announced-sections|%s' % inp,
+        extra = '+'.join(s_ for s_ in ann_main if s_ not in exp_main)
+        gone = '+'.join(s_ for s_ in exp_main if s_ not in ann_main)
+        viol.append(('C01|write(obj)|announced-sections|%s|%s' % (
+            ('without-data=' + extra) if extra else (('missing=' + gone) if gone else 'order'), inp),
                      'object announces %s for the main file, model order is %s' % (ann_main, exp_main)))
     # ---- reference reader on the bytes of w1
     try:
@@ -1726,7 +1738,7 @@ def _chain(M, order, mode, flavour, end_kw, late=()):
                          'mesh file holds sections %s' % (seqs.get('mesh'),)))
         if xp:
             # ROCKS / ELEME / CONNE write their keyword even when empty; RPCAP and GENER only with data
-            exp_xp = [s for s in xp if s in ('ROCKS', 'ELEME', 'CONNE') or _has(M, s)]
+            exp_xp = [s for s in ann_xp if s in ('ROCKS', 'ELEME', 'CONNE') or _has(M, s)]
             got_xp = seqs.get('pdat') or []
             if got_xp != exp_xp:
                 viol.append(('C01|refread(w1)|section-sequence|pdat|%s' % inp,
@@ -1766,7 +1778,7 @@ def _chain(M, order, mode, flavour, end_kw, late=()):
     # the echo flag can be seen in the files only when at least one extra-precision section is in the main file
     echo_seen = bool(xp and mode['echo'] and any(s in exp_main for s in xp))
     if xp:
-        exp_xp = [s for s in xp if s in ('ROCKS', 'ELEME', 'CONNE') or _has(M, s)]
+        exp_xp = [s for s in ann_xp if s in ('ROCKS', 'ELEME', 'CONNE') or _has(M, s)]
         if list(r1.extra_precision) != exp_xp:
             viol.append(('C01|read(w1)|extra-precision-list|%s' % inp,
                          're-read object lists extra precision sections %s, companion file was written with %s'
@@ -1900,6 +1912,7 @@ def _file_chain(case):
     c0 = t2canon.canon(r0)
     cap = (1 << 20) + 20 * sum(os.path.getsize(os.path.join(d, 'orig', f)) for f in os.listdir(os.path.join(d, 'orig')))
     info['sections'] = list(r0._sections)
+    secs0 = [s_ for s_ in r0._sections if s_ in c0]      # the sections of the original that hold data
     flavour = 'AUTOUGH2' if r0.simulator else 'TOUGH2'
     xp = tuple(r0.extra_precision or ())
     mode = {'mesh': mode_mesh, 'xp': list(xp) or None, 'echo': bool(r0.echo_extra_precision) if xp else None}
@@ -1912,6 +1925,7 @@ def _file_chain(case):
             f1 = _files_of(d, 'w1', mode_mesh)
             info['bytes'] = len(f1['main'])
             r1 = t2data.t2data(m1, a1)
+            secs1 = list(r1._sections)
             m2, a2 = step_names('w2')
             r1.write(m2, a2)
             _size_guard(d, 'w2', cap, 'write(r1)', inp)
@@ -1929,9 +1943,10 @@ def _file_chain(case):
     diffs = t2canon.compare(c0, t2canon.canon(r1), **kw)
     _diff_viol('read(w1)', diffs, inp, viol, 'object read from the rewritten file differs from the object read '
                'from the original')
-    if list(r1._sections) != list(r0._sections):
-        viol.append(('C01|read(w1)|announced-sections|%s' % inp,
-                     'sections after rewrite %s, original %s' % (list(r1._sections), list(r0._sections))))
+    if secs1 != secs0:
+        extra = '+'.join(s_ for s_ in secs1 if s_ not in secs0)
+        viol.append(('C01|read(w1)|announced-sections|%s|%s' % (('without-data=' + extra) if extra else 'differ', inp),
+                     'sections after rewrite %s, sections with data of the original %s' % (secs1, secs0)))
     # reference reader on the rewritten bytes against the object the library read from the original
     try:
         rock_names = [rt.name for rt in r0.grid.rocktypelist]
@@ -2136,6 +2151,30 @@ def _history_xp(M, order, d, fa, ca1, differ, viol, inp, info):
     differ('rewrite-with-other-extra-precision-sections', {'canon': M2},
            {'canon': t2canon.canon(t2data.t2data(fo))}, 'a model written with extra precision over files written '
            'with other settings is not what is read back')
+    # the same files reached by another spelling of their path (relative / absolute, upper-case first letter of
+    # the file or of its directory): the companion file must be found again
+    cwd = os.getcwd()
+    try:
+        for dname, fname in (('lower', 'Model.dat'), ('Upper', 'model.dat'), ('Upper2', 'Model.dat')):
+            top = os.path.join(hx, 'paths')
+            os.makedirs(os.path.join(top, dname))
+            os.chdir(top)
+            rel, absf = os.path.join(dname, fname), os.path.join(top, dname, fname)
+            for wpath, rpath, tag in ((rel, absf, 'relative-then-absolute'), (absf, rel, 'absolute-then-relative')):
+                for x in os.listdir(dname):
+                    os.remove(os.path.join(dname, x))
+                build(M, order).write(wpath, extra_precision=list(XP_ALL), echo_extra_precision=False)
+                differ('written-%s|%s' % (tag, rel), {'canon': M}, {'canon': t2canon.canon(t2data.t2data(rpath))},
+                       'a model written to %r (extra precision, not echoed) and read from %r, the same file'
+                       % (wpath if wpath == rel else '<abs>/' + rel, rpath if rpath == rel else '<abs>/' + rel))
+            os.chdir(dname)
+            for x in os.listdir('.'):
+                os.remove(x)
+            build(M, order).write(fname, extra_precision=list(XP_ALL), echo_extra_precision=False)
+            differ('written-in-directory|%s' % rel, {'canon': M}, {'canon': t2canon.canon(t2data.t2data(absf))},
+                   'a model written to %r from inside its directory and read from <abs>/%s' % (fname, rel))
+    finally:
+        os.chdir(cwd)
     # an object that was written and then reads its own file again must not change what other objects write
     fa_, fb_ = os.path.join(hx, 'a', 'model.dat'), os.path.join(hx, 'b', 'model.dat')
     a = build(M, order)
